@@ -59,6 +59,9 @@ func NewContext(system *System, parent *Ref, actor vivid.Actor, options ...vivid
 		Append(chain.ChainFN(initializer.initMailbox)).
 		Append(chain.ChainFN(initializer.initBehavior)).
 		Run(); err != nil {
+		if ctx.ref != nil {
+			system.discardSubscriptionsOf(ctx.ref) // OnPrelaunch 中可能已订阅事件
+		}
 		return nil, vivid.ErrorActorSpawnFailed.With(err)
 	}
 	return ctx, nil
@@ -174,6 +177,7 @@ func (c *Context) ActorOf(actor vivid.Actor, options ...vivid.ActorOption) (vivi
 	}
 
 	if c.system.appendActorContext(childCtx) {
+		c.system.discardSubscriptionsOf(childCtx.ref) // OnPrelaunch 中可能已订阅事件
 		return nil, vivid.ErrorActorAlreadyExists.WithMessage(childCtx.Ref().GetPath())
 	}
 
@@ -183,6 +187,7 @@ func (c *Context) ActorOf(actor vivid.Actor, options ...vivid.ActorOption) (vivi
 	if status == killed {
 		c.childrenLock.Unlock()
 		c.system.removeActorContext(childCtx)
+		c.system.discardSubscriptionsOf(childCtx.ref) // OnPrelaunch 中可能已订阅事件
 		return nil, vivid.ErrorActorDeaded
 	}
 	if c.children == nil {
